@@ -440,6 +440,17 @@ class SStr(Proxy):
             if not cx().branch(z3.InRe(self.t, z3.Star(z3.Range(chr(0), chr(255))))):
                 raise UnicodeEncodeError("latin-1", "", 0, 1, "ordinal not in range(256)")
             return SStr(self.t, True)
+        if enc.lower().replace("-", "").replace("_", "") in ("utf8", "ascii"):
+            c = cx()
+            c.use_model("str.encode(utf-8): identity on ASCII; otherwise some bytes in which NUL/CR/LF/':' occur exactly when they occur in the text (A-STDLIB)")
+            if c.branch(z3.InRe(self.t, z3.Star(z3.Range(chr(0), chr(127))))):
+                return SStr(self.t, True)
+            if enc.lower() == "ascii":
+                raise UnicodeEncodeError("ascii", "", 0, 1, "ordinal not in range(128)")
+            e = c.bytes("utf8_encoded")
+            for ch in ("\r", "\n", "\x00", ":", " "):
+                c.assume_z3(z3.Contains(e.t, z3.StringVal(ch)) == z3.Contains(self.t, z3.StringVal(ch)))
+            return e
         raise core.Unsupported("SStr.encode(%s)" % enc)
 
     def decode(self, enc="utf-8", errors="strict"):
